@@ -24,7 +24,7 @@ RULE = ("a case is a history of register / call_when_ready / "
 ASSUMPTIONS = ["re-registering an already registered name is not exercised",
                "concurrent quit() calls from several OS threads are outside "
                "the statement"]
-REQUIRED = ["waiters_fired", "registrations_under_a_given_name_of_an_object_with_a_core_name", "histories_with_very_many_components", "dependency_handlers_that_are_not_methods", "sinks_that_are_modules", "fired_on_later_register", "fired_immediately",
+REQUIRED = ["waiters_fired", "callbacks_failing_with_a_non_exception", "registrations_under_a_given_name_of_an_object_with_a_core_name", "histories_with_very_many_components", "dependency_handlers_that_are_not_methods", "sinks_that_are_modules", "fired_on_later_register", "fired_immediately",
             "chained_register", "callback_failed", "ltd_wired", "ltd_events",
             "lifecycles", "up_deferred", "quits", "quits_during_startup",
             "registrations_by_class_or_core_name", "rendezvous_histories_that_go_up",
@@ -150,7 +150,7 @@ class Rdv (object):
     self.depth += 1
     try:
       f()
-    except Exception as e:
+    except BaseException as e:
       self.mon.fire("%s raises %s" % (what, type(e).__name__),
                     traceback.format_exc()[-700:])
     finally:
@@ -257,6 +257,12 @@ class Rdv (object):
           elif act[0] == "cwr": self.do_cwr(act[1], "list", act[2])
           elif act[0] == "raise":
             self.rep.count("callback_failed")
+            # (a failure is a failure: also one that is no Exception - a
+            #  callback that calls sys.exit(), a generator being closed)
+            k_ = (w["id"] + len(self.registered)) % 5
+            if k_ == 3:
+              self.rep.count("callbacks_failing_with_a_non_exception")
+              raise (SystemExit(3), GeneratorExit(), KeyboardInterrupt())[(w["id"] // 5) % 3]
             raise RuntimeError("scripted callback failure")
       finally:
         self.depth -= 1
